@@ -43,7 +43,7 @@ V['C01'] = [
     ('tables as tuples', FD, 'step = [1, 2, 2, 4, 4, 4, 4][parity]', 'step = (1, 2, 2, 4, 4, 4, 4)[parity]', 'S', None),
     ('i_h inlined', FD, '        i_h = h * _SQRT_J\n        return (f(x + i_h) + f(x - i_h)).imag', '        return (f(x + h * _SQRT_J) + f(x - h * _SQRT_J)).imag', 'S', None),
     ('flip list as a set', FD, '(self.n % 8 in [3, 4, 5, 6])', '(self.n % 8 in {3, 4, 5, 6})', 'S', None),
-    ('_vstack ravels in memory order', FD, "        f_del = np.vstack([np.ravel(r) for r in sequence])\n        one = np.ones(original_shape)\n        h = np.vstack([np.ravel(one * step) for step in steps])\n        _assert(f_del.size == h.size, 'fun did not return data of correct '\n                'size (it must be vectorized)')\n        return f_del, h, original_shape\n\n    def _apply", "        f_del = np.vstack([np.ravel(r, order='K') for r in sequence])\n        one = np.ones(original_shape)\n        h = np.vstack([np.ravel(one * step, order='K') for step in steps])\n        _assert(f_del.size == h.size, 'fun did not return data of correct '\n                'size (it must be vectorized)')\n        return f_del, h, original_shape\n\n    def _apply", 'F', 'R-ARRAY'),
+    ('_vstack ravels in memory order', FD, "        f_del = np.vstack([np.ravel(r) for r in sequence])\n        one = np.ones(original_shape)\n        h = np.vstack([np.ravel(one * step) for step in steps])\n        _assert(f_del.size == h.size, 'fun did not return data of correct '\n                'size (it must be vectorized)')\n        return f_del, h, original_shape\n\n    def apply", "        f_del = np.vstack([np.ravel(r, order='K') for r in sequence])\n        one = np.ones(original_shape)\n        h = np.vstack([np.ravel(one * step, order='K') for step in steps])\n        _assert(f_del.size == h.size, 'fun did not return data of correct '\n                'size (it must be vectorized)')\n        return f_del, h, original_shape\n\n    def apply", 'F', 'R-ARRAY'),
     ('convolve drops kwds for the imaginary part', EXT, "return convolve1d(seq.real, rule, **kwds) + 1j * convolve1d(seq.imag, rule, **kwds)", "return convolve1d(seq.real, rule, **kwds) + 1j * convolve1d(seq.imag, rule)", 'F', 'R-E2E'),
 ]
 V['C06'] = [v for v in V['C01'] if v[0] in ('offset[6] 3->1', 'c_0[4] 24->12', 'flip list loses n%8==6', 'complex_odd_higher .real->.imag',
@@ -63,6 +63,7 @@ V['C02'] = [
     ('gathers reordered', LIM, '        final_step = steps.flat[idx].reshape(shape)\n        err = errors.flat[idx].reshape(shape)', '        err = errors.flat[idx].reshape(shape)\n        final_step = steps.flat[idx].reshape(shape)', 'S', None),
     ('single estimate error proportional to the value', EXT, 'return (np.abs(new_sequence) * EPS + steps) * fact', 'return np.abs(new_sequence) * (EPS + steps) * fact', 'F', 'R-FLOOR'),
     ('single estimate error: terms commuted', EXT, 'return (np.abs(new_sequence) * EPS + steps) * fact', 'return (steps + EPS * np.abs(new_sequence)) * fact', 'S', None),
+    ('Jacobian steps laid out (m, n)', CORE, '        if np.ndim(fxi) == 0:\n            return steps', '        if np.ndim(fxi) == 0:\n            return steps\n        if np.ndim(fxi) == 1:\n            return [np.outer(np.ones(np.shape(fxi)), h) for h in steps]', 'F', 'R-GATHER'),
 ]
 V['C03'] = [
     ('increments uses h[0]', FD, '            e_i[k] = h[k]\n            yield e_i', '            e_i[k] = h[0]\n            yield e_i', 'F', None),
@@ -84,6 +85,7 @@ V['C04'] = [
     ('revert fix 6259e14 (length-1 value)', CORE, '            if np.ndim(f_x) == 1 and np.size(f_x) == 1:\n                return f_x[0]\n', '', 'F', 'R-HESS-SHAPE'),
     ('eee[i, :] -> eee[i]', FD, 'hess[i, j] = (f(x + eee[i, :] + eee[j, :]) - g[i] - g[j] + f_x) / hess[j, i]', 'hess[i, j] = (f(x + eee[i] + eee[j]) - g[i] - g[j] + f_x) / hess[j, i]', 'S', None),
     ('forward buffer takes the dtype of f(x)', FD, "        g = np.empty(n, dtype=dtype)\n        for i in range(n):\n            g[i] = f(x + eee[i, :])\n\n        hess = np.empty((n, n), dtype=dtype)\n        np.outer(h, h, out=hess)\n        for i in range(n):\n            for j in range(i, n):\n                hess[i, j] = (f(x + eee[i, :] + eee[j, :]) - g[i] - g[j] + f_x)", "        g = np.full(n, f_x)\n        for i in range(n):\n            g[i] = f(x + eee[i, :])\n\n        hess = np.empty((n, n), dtype=dtype)\n        np.outer(h, h, out=hess)\n        for i in range(n):\n            for j in range(i, n):\n                hess[i, j] = (f(x + eee[i, :] + eee[j, :]) - g[i] - g[j] + f_x)", 'F', 'R-INTDTYPE'),
+    ('length-1 value kept as a view', CORE, '            if np.ndim(f_x) == 1 and np.size(f_x) == 1:\n                return f_x[0]', '            if np.ndim(f_x) >= 1 and np.size(f_x) == 1:\n                return np.squeeze(f_x)', 'F', 'R-HESS-SHAPE'),
 ]
 V['C05'] = [
     ('Hessian backward passes +h', FD, 'return HessianDifferenceFunctions._forward(f, f_x, x, -h)', 'return HessianDifferenceFunctions._forward(f, f_x, x, h)', 'F', 'R-ADMISSIBLE'),
@@ -93,6 +95,8 @@ V['C05'] = [
     ('central not symmetric', FD, 'return (f(x0i + h) - f(x0i - h)) / 2.0', 'return (f(x0i + h) - f(x0i - 2 * h)) / 2.0', 'F', 'R-ADMISSIBLE'),
     ('zero filter removed', SG, '            if (np.abs(step) > 0).all():\n                yield step', '            yield step', 'F', 'R-STEPSIGN'),
     ('operands swapped', FD, 'return f(x0i + h) - f_x0i', 'return f(h + x0i) - f_x0i', 'S', None),
+    ('central skips f(x-h) when f(x+h) is NaN', FD, '        return (f(x0i + h) - f(x0i - h)) / 2.0', '        f_plus = f(x0i + h)\n        if np.all(np.isnan(f_plus)):\n            return f_plus\n        return (f_plus - f(x0i - h)) / 2.0', 'F', 'R-ADMISSIBLE'),
+    ('central evaluates both points before the NaN test', FD, '        return (f(x0i + h) - f(x0i - h)) / 2.0', '        f_plus, f_minus = f(x0i + h), f(x0i - h)\n        if np.all(np.isnan(f_plus)):\n            return f_plus\n        return (f_plus - f_minus) / 2.0', 'S', None),
 ]
 V['C07'] = [
     ('r_matrix exponent shifted', EXT, 'r_mat[:, 1:] = (1.0 / step_ratio) ** (i * (step * j + order))', 'r_mat[:, 1:] = (1.0 / step_ratio) ** (i * (step * (j + 1) + order))', 'F', 'R-EXTRAP'),
@@ -111,7 +115,8 @@ V['C08'] = [
      "        original_shape = np.shape(sequence[0])\n        f_del = np.vstack([np.ravel(r) for r in sequence])\n        one = np.ones(original_shape)\n        h = np.vstack([np.ravel(one * step) for step in steps])\n        _assert(f_del.size == h.size, 'fun did not return data of correct '\n                'size (it must be vectorized)')\n        return f_del, h, np.shape(np.ravel(sequence[0]))\n\n    def apply", 'F', 'R-SHAPE'),
     ('revert fix ae04deb (all-NaN column)', LIM, "        all_nan = np.all(np.isnan(errors), axis=0)\n        if np.any(all_nan):\n            # an element without any valid estimate must not affect the other elements\n            warnings.warn('All-NaN slice encountered')\n            errors = np.where(all_nan, 0.0, errors)\n", '        all_nan = np.zeros(shape[1], dtype=bool)\n', 'S', None),
     ('np.abs -> abs', LIM, '        a_median = np.abs(median)', '        a_median = abs(median)', 'S', None),
-    ('steps with NaN dropped for the whole array', CORE, "        results = [diff(f, fxi, x_i, h) for h in steps]\n", "        results = [diff(f, fxi, x_i, h) for h in steps]\n        if bool(np.isnan(results[0]).any()) and len(results) > self.n + self.order + 2:\n            results, steps = results[1:], steps[1:]\n", 'F', 'R-COLSEP'),
+    ('steps with NaN dropped for the whole array', CORE, "        fxi = self._eval_first(f, x_i)\n        results = [diff(f, fxi, x_i, h) for h in steps]\n", "        fxi = self._eval_first(f, x_i)\n        results = [diff(f, fxi, x_i, h) for h in steps]\n        if bool(np.isnan(results[0]).any()) and len(results) > self.n + self.order + 2:\n            results, steps = results[1:], steps[1:]\n", 'F', 'R-COLSEP'),
+    ('every NaN error neutralised', LIM, '            errors = np.where(all_nan, 0.0, errors)', '            errors = np.where(np.isnan(errors), 0.0, errors)', 'F', 'R-ARGMIN'),
 ]
 V['C09'] = [
     ('n setter forgets _set_derivative', CORE, '        self.fd_rule.n = value\n        self._set_derivative()', '        self.fd_rule.n = value', 'F', 'R-HISTORY'),
@@ -122,6 +127,8 @@ V['C09'] = [
     ('richardson only set once', CORE, '        self.set_richardson_rule(step_ratio, self.richardson_terms)\n\n        return self.fd_rule.apply(results, steps, step_ratio), fxi',
      "        if not hasattr(self, '_rich_done'):\n            self.set_richardson_rule(step_ratio, self.richardson_terms)\n            self._rich_done = True\n\n        return self.fd_rule.apply(results, steps, step_ratio), fxi", 'F', 'R-HISTORY'),
     ('cache via setdefault', FD, '            FD_RULES[(step_ratio, parity, num_terms)] = fd_rules', '            FD_RULES.setdefault((step_ratio, parity, num_terms), fd_rules)', 'S', None),
+    ('base step scaled in place', SG, 'base_step, step_ratio = self.base_step * self.step_nom, self.step_ratio', 'base_step, step_ratio = self.base_step, self.step_ratio\n        base_step *= self.step_nom', 'F', 'R-NOMUTATE'),
+    ('cache entry inverted in place after the store', FD, '            fd_mat = self._fd_matrix(step_ratio, parity, num_terms)\n            fd_rules = linalg.pinv(fd_mat)\n            FD_RULES[(step_ratio, parity, num_terms)] = fd_rules', '            fd_rules = self._fd_matrix(step_ratio, parity, num_terms)\n            FD_RULES[(step_ratio, parity, num_terms)] = fd_rules\n            fd_rules[...] = linalg.pinv(fd_rules)', 'F', 'R-CACHEKEY'),
 ]
 V['C10'] = [
     ('Min generator ascending', SG, '        return range(self.num_steps - 1, -1, -1)', '        return range(self.num_steps)', 'F', None),
@@ -131,6 +138,7 @@ V['C10'] = [
     ('exact steps ignored', SG, '        if self.use_exact_steps:\n            base_step = make_exact(base_step)', '        if True:\n            base_step = make_exact(base_step)', 'F', 'R-OPTIONS'),
     ('min_num_steps too small', SG, '        num_steps = int(n + order - 1)\n        divisor', '        num_steps = int(n + order - 1) // 3\n        divisor', 'F', None),
     ('ratio default as conditional', SG, 'step_ratio = {1: 2.0}.get(self._state.n, 1.6)', 'step_ratio = 2.0 if self._state.n == 1 else 1.6', 'S', None),
+    ('zero test on the base step only', SG, '        for i in self._range():\n            step = base_step * step_ratio ** (sgn * i + offset)\n            if (np.abs(step) > 0).all():\n                yield step', '        if not (np.abs(base_step) > 0).all():\n            return\n        for i in self._range():\n            yield base_step * step_ratio ** (sgn * i + offset)', 'F', 'R-ZEROFILTER'),
 ]
 V['C11'] = [
     ('revert fix 4107309 (Jacobian guard)', CORE, "        if self.method in ['complex', 'multicomplex']:\n            self._raise_error_if_any_is_complex(x_i, fxi)\n        results = [diff(f, fxi, x_i, h) for h in steps]", '        results = [diff(f, fxi, x_i, h) for h in steps]', 'F', 'R-COMPLEXGUARD'),
@@ -140,6 +148,7 @@ V['C11'] = [
     ('residue guard weakened', LIM, "        _assert(pole_order < order, 'order must be at least pole_order+1.')", "        _assert(pole_order <= order, 'order must be at least pole_order+1.')", 'F', 'R-MISUSE'),
     ('fd_derivative length guard dropped', FB, "    _assert(num_x == len(fx), 'len(x) must be equal len(fx)')\n", '', 'F', 'R-MISUSE'),
     ('guard as if/raise', FB, "    _assert(n < num_x, 'len(x) must be larger than n')\n    _assert(num_x == len(fx)", "    if not n < num_x:\n        raise ValueError('len(x) must be larger than n')\n    _assert(num_x == len(fx)", 'S', None),
+    ('complex guard after the f(x) shortcut', CORE, "        if self.method in ['complex', 'multicomplex']:\n            f_x = f(x)\n            self._raise_error_if_any_is_complex(x, f_x)\n            return f_x\n        if self.fd_rule.eval_first_condition or self.full_output:\n            return f(x)", "        if self.fd_rule.eval_first_condition or self.full_output:\n            return f(x)\n        if self.method in ['complex', 'multicomplex']:\n            f_x = f(x)\n            self._raise_error_if_any_is_complex(x, f_x)\n            return f_x", 'F', 'R-COMPLEXGUARD'),
 ]
 V['C12'] = [
     ('revert fix 2b04784 (log1p)', MC, '        z1, z2 = self.z1, self.z2\n        # log(mod_c(1 + z)) = 0.5 * log((1 + z1)**2 + z2**2)\n        return Bicomplex(0.5 * np.log1p(z1 * (2 + z1) + z2 * z2), self.arg_c1p())', '        return Bicomplex(np.log1p(self.mod_c()), self.arg_c1p())', 'F', None),
@@ -157,6 +166,8 @@ V['C12'] = [
     ('arg_c sign via np.sign', MC, 'sign = np.where((z1.real == 0) * (z2.real == 0), 0, np.where(0 <= z2.real, 1, -1))', 'sign = np.sign(z2.real)', 'F', 'R-BRANCH'),
     ('arg_c lower half plane at the axis', MC, 'np.where(0 <= z2.real, 1, -1))', 'np.where(0 < z2.real, 1, -1))', 'S', None),
     ('mod_c memoised', MC, "        r11, r22 = self.z1 * self.z1, self.z2 * self.z2\n        r = np.sqrt(r11 + r22)\n        return r", "        if getattr(self, '_r', None) is None:\n            r11, r22 = self.z1 * self.z1, self.z2 * self.z2\n            self._r = np.sqrt(r11 + r22)\n        return self._r", 'F', None),
+    ('singular fallback only when all elements are singular', MC, '        out = (self.log() * other).exp()\n        non_invertible = np.abs(self.mod_c()) < 1e-15\n        if non_invertible.any():\n            out[non_invertible] = self[non_invertible]._pow_singular(other)\n        return out', '        non_invertible = np.abs(self.mod_c()) < 1e-15\n        if non_invertible.all():\n            return self._pow_singular(other)\n        return (self.log() * other).exp()', 'F', 'R-ELEMENTWISE'),
+    ('singular fallback for the whole array', MC, '        out = (self.log() * other).exp()\n        non_invertible = np.abs(self.mod_c()) < 1e-15\n        if non_invertible.any():\n            out[non_invertible] = self[non_invertible]._pow_singular(other)\n        return out', '        non_invertible = np.abs(self.mod_c()) < 1e-15\n        if non_invertible.any():\n            return self._pow_singular(other)\n        return (self.log() * other).exp()', 'F', 'R-ELEMENTWISE'),
 ]
 V['C13'] = [
     ('Shanks sign', EXT, 'sss = 1.0 / delta2 - 1.0 / delta1 + _TINY', 'sss = 1.0 / delta2 + 1.0 / delta1 + _TINY', 'F', 'R-SHANKS'),
@@ -165,6 +176,8 @@ V['C13'] = [
     ('symmetric trims two', EXT, '        return result[:-1], abserr[1:]', '        return result[:-2], abserr[1:]', 'F', 'R-ELEMENTWISE'),
     ('guard on e_2', EXT, 'smalle2 = abs(sss * e_1) <= 1.0e-4', 'smalle2 = abs(sss * e_2) <= 1.0e-4', 'F', 'R-GUARD'),
     ('np.abs -> abs', EXT, 'err2, err1 = np.abs(delta2), np.abs(delta1)', 'err2, err1 = abs(delta2), abs(delta1)', 'S', None),
+    ('overflow no longer silenced', EXT, '    with warnings.catch_warnings():\n        warnings.simplefilter("ignore")  # ignore division by zero and overflow\n        delta2, delta1', "    with np.errstate(divide='ignore', invalid='ignore'):\n        delta2, delta1", 'F', 'R-NORAISE'),
+    ('noise silenced with errstate(all)', EXT, '    with warnings.catch_warnings():\n        warnings.simplefilter("ignore")  # ignore division by zero and overflow\n        delta2, delta1', "    with np.errstate(all='ignore'):\n        delta2, delta1", 'S', None),
 ]
 V['C14'] = [
     ('EpsAlg returns the other diagonal', EXT, 'estlim = epstab[n % 2]', 'estlim = epstab[(n + 1) % 2]', 'F', 'R-EPSALG'),
@@ -173,6 +186,8 @@ V['C14'] = [
     ('Dea sss sign', EXT, 'sss = 1.0 / delta1 + 1.0 / delta2 - 1.0 / delta3', 'sss = 1.0 / delta1 + 1.0 / delta2 + 1.0 / delta3', 'F', None),
     ('shift parity', EXT, 'i_0 = old_n % 2', 'i_0 = n % 2', 'F', 'R-DEA-TABLE'),
     ('EpsAlg guard EPS', EXT, 'if np.abs(delta) <= 1.0e-60:', 'if np.abs(delta) <= _EPS:', 'F', 'R-EPSALG-GUARD'),
+    ('Dea irregular test loses abs', EXT, 'epsinf = abs(sss*e_1)', 'epsinf = sss * e1abs', 'F', 'R-DEA-DEA3'),
+    ('Dea irregular test as a product of magnitudes', EXT, 'epsinf = abs(sss*e_1)', 'epsinf = abs(sss) * e1abs', 'S', None),
 ]
 V['C15'] = [
     ('weights[v, j] instead of j-1', FB, 'c_2, c_6, c_7 = c_2 * c_3, j * weights[v, j - 1], weights[v, j]', 'c_2, c_6, c_7 = c_2 * c_3, j * weights[v, j], weights[v, j]', 'F', 'R-LAGRANGE'),
@@ -198,6 +213,9 @@ V['C17'] = [
     ('_previous_direction reset only once', FB, '        self._previous_direction = None\n        self._degenerate = self._failed = False', "        if not hasattr(self, '_m'):\n            self._previous_direction = None\n        self._degenerate = self._failed = False", 'F', 'R-RESET'),
     ('coefficients through real_if_close', FB, "        coefs, errors = _get_best_taylor_coefficients(bs, rs, m, lambda: self._get_max_m1m2(bn, m))\n", "        coefs, errors = _get_best_taylor_coefficients(bs, rs, m, lambda: self._get_max_m1m2(bn, m))\n        coefs = np.real_if_close(coefs)\n", 'F', 'R-KIND'),
     ('k! by int64 cumprod', FB, 'fact = factorial(np.arange(m))', 'fact = np.cumprod(np.maximum(np.arange(m), 1))', 'F', 'R-FACTORIAL'),
+    ('self check through vdot', FB, 'comp = np.sum(bn * np.power(check_point, mvec))', 'comp = np.vdot(bn, np.power(check_point, mvec))', 'F', 'R-SELFCHECK'),
+    ('second Richardson level drops the newest row', FB, '    for k in range(1, nk - 1):\n        extrap.append', '    for k in range(1, len(extrap0) - 1):\n        extrap.append', 'F', 'R-EXTRAPOLATE'),
+    ('self check through dot', FB, 'comp = np.sum(bn * np.power(check_point, mvec))', 'comp = np.dot(bn, np.power(check_point, mvec))', 'S', None),
 ]
 V['C18'] = [
     ('np.put replaced by assignment', LIM, '            np.put(f_z, k, lim_fz)\n            if self.full_output:', '            f_z = lim_fz\n            if self.full_output:', 'F', 'R-NANMASK'),
